@@ -233,6 +233,9 @@ func (p *peer) Dial(addr string, protoFunc ...ProtoFunc) (Session, *Status) {
 			_, err := p.dialer.dialWithRetry(addr, oldID, func(conn net.Conn) error {
 				sess.socket.Reset(conn, protoFunc...)
 				if oldIP == oldID {
+					// the id follows the local address: the entry under the
+					// old address must not stay behind in the index
+					p.sessHub.deleteSession(oldID, sess)
 					sess.socket.SetID(sess.LocalAddr().String())
 				} else {
 					sess.socket.SetID(oldID)
